@@ -146,6 +146,12 @@ def project(lines: list[str], keep: dict) -> list[str]:
                 out.append(pre + " " + head + " " + " ".join(f"{k}={d.get(k)}" for k in f))
     # what is written to *different* sockets within one step has no order between the sockets: a run of consecutive OUT
     # lines is compared connection by connection (the order on each connection is kept)
+    # the application ids a node announces come out of a Python set: their order means nothing
+    def _ids(l):
+        import re
+        return re.sub(r"(auth|acct)=([0-9]+(?:\+[0-9]+)+)",
+                      lambda m: m.group(1) + "=" + "+".join(sorted(m.group(2).split("+"), key=int)), l) if " cea=" in l else l
+    out = [_ids(l) for l in out]
     canon, run_ = [], []
     for l in out + [""]:
         if l.startswith("OUT "):
